@@ -103,9 +103,9 @@ def read_seqs(text):
             op["res"] = f[1] if len(f) > 1 else ""
         elif tag == "D":
             if op is not None and op["dump"] is None:
-                op["dump"] = f[1:4]
+                op["dump"] = f[1:5]
             else:
-                cur.events.append(("D", f[1:4], len(cur.ops), len(cur.truths) - 1))
+                cur.events.append(("D", f[1:5], len(cur.ops), len(cur.truths) - 1))
         elif tag == "T":
             cur.truths.append(parse_descs(f[1]))
         elif tag == "X":
@@ -222,6 +222,12 @@ def check_seq(sq, fails, stats):
                 fail("C09_group_partition", "groups %s are not a partition of the keys %s" % (groups, a[0]))
             if keys and not firstok:
                 fail("C09_group_partition", "first region %s is not the group of the first key" % first)
+        # a lookup must not fail when every PD answer it got was usable (non-empty, every region with a leader)
+        if res == "err" and name in ("locate", "locate_end", "range", "batch", "loadrange", "bload", "bloads", "group", "listids") and op["qs"]:
+            usable = all(q[-1] not in ("none", "_") for q in op["qs"]) and qs_all_have_leader(op) and \
+                     all(d["leader"].split(":")[0] != "0" for q in op["qs"] if q[0] in ("get", "prev", "byid") for d in parse_descs(q[-1]))
+            if usable and not (name in ("bload", "bloads") and "0" in (a[2:3] if name == "bload" else a[1:2])):
+                fail("C09_converges(lookup fails although PD answered)", "%s %s returned an error; PD answers: %s" % (name, " ".join(a), ["|".join(q)[:200] for q in op["qs"]][:4]))
         # non-regression of latestVersions while the id stays present
         lat = latest_of(op["dump"])
         # C09_no_regress speaks about ids that are never dropped in between: only operations that perform at most
@@ -312,6 +318,16 @@ def main(tier, replay):
     okg, exe = vlib.go_build("regioncache", roots=ROOTS)
     stats = dict(oracle_evals=0, conv=0, conv_rounds=collections.Counter())
     mstats, classes, mism, fails, samples, distinct = {}, {}, [], [], [], 0
+    if okg and okm and not replay:
+        # directed: the public API over mocktikv's own PD client (F29, fixed by 201b415): bounded range then unbounded range
+        pr = subprocess.run([exe, "probe-mockpd"], env=env, stdout=subprocess.PIPE, stderr=subprocess.PIPE, timeout=120).stdout.decode(errors="replace")
+        pl = [l for l in pr.splitlines() if l.startswith("PROBE\t")]
+        ids = [x.split(",")[0] for x in pl[0].split("\t")[2].split(";")] if pl else []
+        stats["oracle_evals"] += 1
+        if ids != ["3", "5"]:
+            v.violation({"kind": "property-oracle", "oracle": "C09_range_gap_free(mock PD client)", "case": ["probe-mockpd"],
+                         "what": "regions [-inf,b) id3 [b,d) id4 [d,+inf) id5, cold cache over mocktikv.NewPDClient: BatchLocateKeyRanges([a,a1),[e,+inf)) "
+                                 "must return regions 3 and 5", "implementation_result": pl[:1] or pr[-300:]})
     if okg and okm:
         case = None
         if replay:
